@@ -1007,6 +1007,23 @@ fn vm(st: &mut St) -> &mut Impl {
 }
 
 /// Compare the observation the VM returned with the model state. Returns a description on mismatch.
+/// Evaluate the observation expression of `ms`; the pool is also handed to `write` and `display`, and what reaches the
+/// output must be the pool's contents as the first dump shows them (the printing procedures convert the heap value on a
+/// path of their own). A difference is returned as an error outcome.
+fn observe(im: &mut Impl, ms: &MS) -> ImplOut {
+    im.log.borrow_mut().clear();
+    let out = im.eval_text(&format!("(begin (write (list p0 p1 p2 p3)) (display (list p0 p1 p2 p3)) {})", ms.observe_text()));
+    if let ImplOut::Value(c) = &out {
+        let log = im.log.borrow();
+        let contents = format!("{:#}", c.car().cloned().unwrap_or(Cell::Nil));
+        let printed: Vec<String> = log.iter().map(|(k, c)| format!("{}:{:#}", k, c)).collect();
+        if printed != vec![format!("w:{}", contents), format!("d:{}", contents)] {
+            return ImplOut::Error(format!("write / display of the pool printed {:?} but its contents are {}", printed, contents), crate::conform::ErrClass::Other);
+        }
+    }
+    out
+}
+
 fn check_observation(ms: &MS, obs: &Cell) -> Result<(), String> {
     let mut dumps: Vec<&Cell> = obs.iter().collect();
     let expected = ms.expected_observation();
@@ -1134,7 +1151,7 @@ fn expand(st: &mut St, acc: &mut Acc, ms: &MS, ops: &[OpInst], path: &str) -> Ex
             }
         }
         // 3. observe the whole pool (values and aliasing)
-        let obs = im.eval_text(&after.observe_text());
+        let obs = observe(im, &after);
         match obs {
             ImplOut::Value(c) => match check_observation(&after, &c) {
                 Ok(()) => {
@@ -1333,7 +1350,7 @@ pub fn run(ctx: &Ctx) -> i32 {
                     }
                     (_, ImplOut::Value(_)) => {}
                 }
-                match im.eval_text(&after.observe_text()) {
+                match observe(im, &after) {
                     ImplOut::Value(c) => match check_observation(&after, &c) {
                         Ok(()) => acc.nontrivial += 1,
                         Err(what) => {
@@ -1406,6 +1423,75 @@ pub fn run(ctx: &Ctx) -> i32 {
         }
         beat("");
     }
+    // stored values are the very values given: every ordered pair (OLD, NEW) of scalars that include numerically equal
+    // numbers of different exactness and both signed zeros, each produced as a literal or as the car of a fresh list,
+    // through every storing or copying procedure; observed in written form (number comparison would hide 2 vs 2.0)
+    {
+        const VALUES: [&str; 17] = [
+            "0", "0.0", "-0.0", "1", "1.0", "-1", "1/2", "0.5", "2", "2.0", "100000000000000000000", "1e20", "'a", "\"s\"", "#\\x", "#t", "'()",
+        ];
+        let templates: Vec<(&str, &str)> = vec![
+            ("(let ((v (make-vector 3 OLD))) (vector-fill! v NEW) v)", "#(N N N)"),
+            ("(let ((v (vector OLD 'k OLD))) (vector-fill! v NEW) v)", "#(N N N)"),
+            ("(let ((v (make-vector 2 OLD))) (vector-fill! v NEW) (vector-fill! v OLD) v)", "#(O O)"),
+            ("(let ((v (make-vector 2 NEW))) (vector-fill! v OLD) (vector-fill! v NEW) v)", "#(N N)"),
+            ("(let ((v (make-vector 2))) (vector-fill! v OLD) (vector-fill! v NEW) v)", "#(N N)"),
+            ("(let ((v (vector OLD OLD OLD))) (vector-set! v 1 NEW) v)", "#(O N O)"),
+            ("(let ((p (cons OLD OLD))) (set-car! p NEW) p)", "(N . O)"),
+            ("(let ((p (cons OLD OLD))) (set-cdr! p NEW) p)", "(O . N)"),
+            ("(let ((v (make-vector 2 OLD)) (w (vector NEW NEW))) (vector-copy! v 0 w) v)", "#(N N)"),
+            ("(let ((v (make-vector 3 OLD)) (w (vector NEW NEW))) (vector-copy! v 1 w 1) v)", "#(O N O)"),
+            ("(make-vector 2 NEW)", "#(N N)"),
+            ("(list->vector (list OLD NEW))", "#(O N)"),
+            ("(vector->list (vector OLD NEW))", "(O N)"),
+            ("(append (list OLD) (list NEW))", "(O N)"),
+            ("(reverse (list OLD NEW))", "(N O)"),
+            ("(map (lambda (x) x) (list OLD NEW))", "(O N)"),
+            ("(vector-copy (vector OLD NEW))", "#(O N)"),
+            ("(vector-copy (vector OLD NEW) 1)", "#(N)"),
+            ("(list-tail (list OLD NEW) 1)", "(N)"),
+            ("(list (list-ref (list OLD NEW) 1) (vector-ref (vector OLD NEW) 0))", "(N O)"),
+            ("(apply list OLD (list NEW))", "(O N)"),
+        ];
+        let mut im = Impl::new();
+        // written form of each value on its own
+        let written: Vec<String> = VALUES.iter().map(|v| im.eval_text(v).show()).collect();
+        let modes: [&dyn Fn(&str) -> String; 2] = [&|x: &str| x.to_string(), &|x: &str| format!("(car (list {}))", x)];
+        for (io, o) in VALUES.iter().enumerate() {
+            for (inw, n) in VALUES.iter().enumerate() {
+                for (tmpl, want) in &templates {
+                    for mo in 0..2 {
+                        for mn in 0..2 {
+                            let text = tmpl.replace("OLD", &modes[mo](o)).replace("NEW", &modes[mn](n));
+                            let want: String = want.chars().map(|c| match c { 'O' => written[io].clone(), 'N' => written[inw].clone(), c => c.to_string() }).collect();
+                            // "(1 . ())" is written "(1)"
+                            let want = match marwood::parse::parse_text(&want) {
+                                Ok((c, _)) => format!("{:#}", c),
+                                Err(_) => want,
+                            };
+                            beat(&text);
+                            acc.evals += 1;
+                            let got = im.eval_text(&text).show();
+                            if got == want {
+                                acc.nontrivial += 1;
+                            } else {
+                                acc.violation(Violation {
+                                    key: format!("stored:{}", text),
+                                    class: Some("stored-value-is-the-value-given".into()),
+                                    observed: if got.starts_with("panic") { "panic".into() } else if got.starts_with("error") { "error".into() } else { "wrong-result".into() },
+                                    detail: json!({"session": [text], "expected": want, "observed": got}),
+                                });
+                                if got.starts_with("panic") {
+                                    im = Impl::new();
+                                }
+                            }
+                        }
+                    }
+                }
+            }
+        }
+        beat("");
+    }
     // conformance of construction: states reached by replaying their shortest path from the initial pool
     let replay_states: Vec<MS> = {
         let mut v: Vec<&MS> = parent.keys().collect();
@@ -1438,7 +1524,7 @@ pub fn run(ctx: &Ctx) -> i32 {
                 let _ = im.eval_text(op);
             }
             acc.evals += 1;
-            match im.eval_text(&target.observe_text()) {
+            match observe(&mut im, target) {
                 ImplOut::Value(c) => match check_observation(target, &c) {
                     Ok(()) => acc.count("traces_replayed_from_initial_pool", 1),
                     Err(what) => acc.violation(Violation {
@@ -1474,7 +1560,7 @@ pub fn run(ctx: &Ctx) -> i32 {
     rep.extra("operation_instances_in_alphabet", json!(ops.len()));
     rep.extra("state_cap_hit", json!(cap_hit));
     rep.rule = format!(
-        "Breadth-first search to depth {} from 9 initial pools over a reference store model: 4 named slots holding scalars (0 1 a #t () #\\x, small integers) or references into a store of pairs and vectors (spine <= 3, vector length <= 3, <= 8 objects, acyclic), canonicalised by renaming locations in first-visit order and dropping unreachable objects (sound because the language cannot observe addresses). Alphabet: {} operation instances over the slots (cons car cdr set-car! set-cdr! list length append reverse list-tail list-ref memq memv member assq assv assoc map (3 procedures, 1 and 2 lists) for-each (1 and 2 lists) list? vector make-vector vector-length vector-ref vector-set! vector-fill! vector->list list->vector vector-copy (with start) vector-copy! (at, start, end incl. overlapping) equal?, apply with individual arguments before the list, and moves), indices from -1..len+1 and 2^62; an instance is enabled only where R7RS fixes the outcome. Every transition is executed on the real VM: the state is built from its canonical form, the operation applied, and the result (value vs required error) and the whole pool afterwards compared with the model: contents by value (also through equal? against the pool read as a literal, both ways round), identity by writing a marker through each object in turn and comparing which paths show it. Large structures: equal? / member / assoc on lists and vectors of 10 .. 300 rows with the same row object on one side and separately allocated rows on the other (16 checks x 6 sizes). Histories: from each initial pool every enabled operation followed, on the same objects and without rebuilding, by every operation that reads the first one's destination (or any operation after a mutator), with the same oracles. Shortest paths of a sub-set of states are replayed from the initial pool in a fresh VM (state reached by operations = state built directly). Non-trivial = a transition whose outcome and full pool observation agreed.",
+        "Breadth-first search to depth {} from 9 initial pools over a reference store model: 4 named slots holding scalars (0 1 a #t () #\\x, small integers) or references into a store of pairs and vectors (spine <= 3, vector length <= 3, <= 8 objects, acyclic), canonicalised by renaming locations in first-visit order and dropping unreachable objects (sound because the language cannot observe addresses). Alphabet: {} operation instances over the slots (cons car cdr set-car! set-cdr! list length append reverse list-tail list-ref memq memv member assq assv assoc map (3 procedures, 1 and 2 lists) for-each (1 and 2 lists) list? vector make-vector vector-length vector-ref vector-set! vector-fill! vector->list list->vector vector-copy (with start) vector-copy! (at, start, end incl. overlapping) equal?, apply with individual arguments before the list, and moves), indices from -1..len+1 and 2^62; an instance is enabled only where R7RS fixes the outcome. Every transition is executed on the real VM: the state is built from its canonical form, the operation applied, and the result (value vs required error) and the whole pool afterwards compared with the model: contents by value (also through equal? against the pool read as a literal, both ways round), identity by writing a marker through each object in turn and comparing which paths show it; the pool is also given to write and display and the datum that reaches the output must print like the dump. Large structures: equal? / member / assoc on lists and vectors of 10 .. 300 rows with the same row object on one side and separately allocated rows on the other (16 checks x 6 sizes). Stored values: 21 storing / copying expressions (vector-fill! also twice in a row and over the unfilled default, vector-set!, set-car!, set-cdr!, vector-copy!, make-vector, list->vector, vector->list, append, reverse, map, vector-copy, list-tail, list-ref, vector-ref, apply) x every ordered pair of 17 scalars (0 0.0 -0.0 1 1.0 -1 1/2 0.5 2 2.0 10^20 1e20 a \"s\" #\\x #t ()) x each produced as a literal or as the car of a fresh list, compared in written form so that exactness and the sign of zero show. Histories: from each initial pool every enabled operation followed, on the same objects and without rebuilding, by every operation that reads the first one's destination (or any operation after a mutator), with the same oracles. Shortest paths of a sub-set of states are replayed from the initial pool in a fresh VM (state reached by operations = state built directly). Non-trivial = a transition whose outcome and full pool observation agreed.",
         depth_done, ops.len()
     );
     rep.assumptions.push("memq/assq/memv/assv get keys on which eq?/eqv? are fully specified; vector-copy's end argument is excluded (pinned non-R7RS meaning); calls whose outcome R7RS leaves open (car of a non-pair, assq on a list with non-pair elements, ...) are not enabled".into());
